@@ -9,7 +9,7 @@ package cmd
 // generated container (internal/gontainer) then wires from those parameters is assumed (contracts/assumed/container.spec)
 // and evaluated by the composition test.
 //@ func buildRunner effect
-//@   property C12 C10 C16 C09 C18
+//@   property C12 C10 C16 C09 C18 C06 C05 C07
 //@   ensures [steps_wired] result != nil && (forall j int :: 0 <= j && j < len(result.steps) ==> result.steps[j] != nil)
 //@   ensures [patterns_reach_the_container_in_flag_order] exists k int :: old(tlen()) <= k && k < tlen() && evIs(k, "github.com/gontainer/gontainer-helpers/v3/container.(*Container).OverrideParam") && evS1(k) == "inputPatterns"
 //@        && evArg(k, container.Dependency) == container.NewDependencyValue(p.inputPatterns)
@@ -24,13 +24,13 @@ package cmd
 //@   ensures [each_parameter_is_set_once] forall a int, b int :: old(tlen()) <= a && a < tlen() && old(tlen()) <= b && b < tlen()
 //@        && evIs(a, "github.com/gontainer/gontainer-helpers/v3/container.(*Container).OverrideParam")
 //@        && evIs(b, "github.com/gontainer/gontainer-helpers/v3/container.(*Container).OverrideParam") && evS1(a) == evS1(b) ==> a == b
-//@   ensures [missing_params_rule_is_switched_by_its_own_flag C16] exists g int, a int :: old(tlen()) <= g && g < a && a < tlen()
+//@   ensures [missing_params_rule_is_switched_by_its_own_flag C16 C06] exists g int, a int :: old(tlen()) <= g && g < a && a < tlen()
 //@        && evIs(g, "internal/gontainer:(*gontainer).MustGetStepValidateParamsExist") && evIs(a, "internal/cmd/runner:(*StepVerboseSwitchable).Active")
 //@        && evFrom(a) == g && evB1(a) == p.paramsExistActive
-//@   ensures [missing_services_rule_is_switched_by_its_own_flag C16] exists g int, a int :: old(tlen()) <= g && g < a && a < tlen()
+//@   ensures [missing_services_rule_is_switched_by_its_own_flag C16 C06] exists g int, a int :: old(tlen()) <= g && g < a && a < tlen()
 //@        && evIs(g, "internal/gontainer:(*gontainer).MustGetStepValidateServicesExist") && evIs(a, "internal/cmd/runner:(*StepVerboseSwitchable).Active")
 //@        && evFrom(a) == g && evB1(a) == p.servicesExistActive
-//@   ensures [nothing_else_is_switched C16] forall a int :: old(tlen()) <= a && a < tlen() && evIs(a, "internal/cmd/runner:(*StepVerboseSwitchable).Active") ==>
+//@   ensures [nothing_else_is_switched C16 C06 C05 C07] forall a int :: old(tlen()) <= a && a < tlen() && evIs(a, "internal/cmd/runner:(*StepVerboseSwitchable).Active") ==>
 //@        old(tlen()) <= evFrom(a) && evFrom(a) < a
 //@        && ((evIs(evFrom(a), "internal/gontainer:(*gontainer).MustGetStepValidateParamsExist") && evB1(a) == p.paramsExistActive)
 //@         || (evIs(evFrom(a), "internal/gontainer:(*gontainer).MustGetStepValidateServicesExist") && evB1(a) == p.servicesExistActive))
